@@ -280,10 +280,17 @@ class CustomFootnoteDef(footnote.FootnoteDef):
 
     def __init__(self, match: re.Match[str]) -> None:
         super().__init__(match)
-        # (Up to three spaces of leading indentation are allowed by the pattern; after a
-        # container marker followed by a tab their number differs between the raw and the
-        # tab-expanded line, so match them loosely.)
-        self._prefix: str = r" {,3}" + re.escape(match.group().expandtabs(4).lstrip(" "))
+        # How many columns a tab expands to depends on where the definition starts (it may
+        # follow a container marker), and so does the leading indentation (up to 3 spaces).
+        # So match the marker exactly and the whitespace around it by width range.
+        text = match.group().lstrip(" ")
+        marker = text.rstrip()
+        spacing = text[len(marker) :]
+        if "\t" in spacing:
+            widths = f"{{{len(spacing)},{len(spacing.expandtabs(4)) + 3}}}"
+            self._prefix: str = r" {,3}" + re.escape(marker) + r"[^\n\S]" + widths
+        else:
+            self._prefix = r" {,3}" + re.escape(marker + spacing)
 
     @override
     @classmethod
